@@ -1,6 +1,7 @@
 import VlsModel.Gen.FnB3NodeFind
 import VlsModel.Gen.FnB3NodeFindM
 import VlsModel.Gen.FnB3NodeState
+import VlsModel.Gen.FnB3Allowable
 import VlsModel.Model.Onchain
 import VlsModel.Gen.FnSimple
 import VlsModel.Gen.FnOnchainTx
@@ -807,6 +808,23 @@ theorem C08_fn_memo_approve_onchain (d : Approver Tx) (appr : List (Approval I P
   · have hh' : memoHit (appr.map memoOf) tx = false := by simpa using hh
     simp [Approver.approveOnchain, hh', delegateE, pure, Except.pure, bind, Except.bind]
 
+/-- (round 10, b3) `MemoApprover::new`: no memoized approval; `MemoApprover::approve(a)`: the memo list **is** `a` (an older memo
+    is overwritten, not extended; the delegate is untouched) -/
+theorem C08_fn_memo_new_approve (d : Approver Tx) (old appr : List (Approval I P Tx)) :
+    (MemoApprover.new d : MemoApprover I P Tx (Approver Tx)) = ⟨d, []⟩
+      ∧ MemoApprover.approve ⟨d, old⟩ appr = ⟨d, appr⟩ := ⟨rfl, rfl⟩
+
+/-- … so the `approve_onchain` that follows `approve(a)` decides on exactly `a` (and on nothing memoized earlier), and a fresh
+    memo approver decides as its delegate -/
+theorem C08_fn_memo_approve_then_onchain (d : Approver Tx) (old appr : List (Approval I P Tx)) (tx : Tx) (po : List O)
+    (idx : List Nat) :
+    MemoApprover.approve_onchain (ext_delegate_approve_onchain := delegateE) (MemoApprover.approve ⟨d, old⟩ appr) tx po idx
+        = .ok (⟨d, []⟩, ((Approver.memo (appr.map memoOf) d).approveOnchain tx).2)
+      ∧ MemoApprover.approve_onchain (ext_delegate_approve_onchain := delegateE)
+          (MemoApprover.new d : MemoApprover I P Tx (Approver Tx)) tx po idx
+        = .ok (⟨d, []⟩, ((Approver.memo [] d).approveOnchain tx).2) :=
+  ⟨C08_fn_memo_approve_onchain d appr tx po idx, C08_fn_memo_approve_onchain d [] tx po idx⟩
+
 /-- non-vacuity: a memo for transaction 7 approves 7 and nothing else under a declining delegate; afterwards it is spent -/
 example : ((Approver.memo [Memo.invoice, .onchain 7] .negative).approveOnchain 7).2 = true
     ∧ ((Approver.memo [Memo.invoice, .onchain 7] .negative).approveOnchain 8).2 = false
@@ -1323,5 +1341,16 @@ example : (NodeState.restore (PaymentHash := Nat) (ScriptBuf := Nat) (Xpub := Na
     [] [] [] 5 (10 : Nat) 20 7 []) = .error .panic := by rfl
 
 end NodeStateCtor
+
+/-! ## (round 10, b3) `Allowable::to_script` (`Gen.FnB3Allowable`, node.rs) -/
+
+/-- only a `Script` entry of the allowlist is a destination script: an xpub or a Lightning payee entry is `Err(())`, never a
+    script (an allowlisted payee key cannot be used as an on-chain destination through this conversion) -/
+theorem C08_fn_allowable_to_script {S X P : Type} (a : Gen.FnB3Allowable.Allowable S X P) :
+    a.to_script = match a with
+      | .Script s => .ok s
+      | .XPub _ => Rs.fail "()"
+      | .Payee _ => Rs.fail "()" := by
+  cases a <;> rfl
 
 end VlsModel.Props.C08Fn
